@@ -1,14 +1,14 @@
 #!/bin/bash
-# usage: scripts/retest_seeded.sh [tier]   — applies every kept seeded change in turn, runs its property's quick check, expects exit 1
-T="${1:-quick}"
-cd /repo || exit 9
-if [ -n "$(git status --porcelain)" ]; then echo "repo dirty, abort"; exit 9; fi
-for d in /verif/seeded/*/; do
-  id=$(basename "$d"); prop=${id%%_*}
-  if ! git apply --check "$d/patch.diff" 2>/dev/null; then echo "$id: patch no longer applies"; continue; fi
-  git apply "$d/patch.diff"
-  (cd /verif && ./check "$prop" --tier "$T" > /tmp/retest_$id.log 2>&1); rc=$?
-  git checkout -- . ; git clean -fdq cirq-core cirq-google cirq-ionq cirq-aqt cirq-pasqal 2>/dev/null
-  echo "$id: check exit=$rc $(grep -c VIOLATION /tmp/retest_$id.log) violation line(s)"
-done
-git status --porcelain | head -3
+# usage: scripts/retest_seeded.sh [tier] [jobs]  — every kept seeded change on its own scratch copy of /repo's packages; expects exit 1
+T="${1:-quick}"; J="${2:-6}"
+one() {
+  d="$1"; T="$2"; id=$(basename "$d"); prop=${id%%_*}
+  S=$(mktemp -d /tmp/retest.XXXXXX)
+  for p in cirq-core cirq-google cirq-ionq cirq-aqt cirq-pasqal; do cp -r /repo/$p "$S/"; done
+  if ! (cd "$S" && patch -p1 -s --no-backup-if-mismatch < "$d/patch.diff" >/dev/null 2>&1); then echo "$id: patch no longer applies"; rm -rf "$S"; return; fi
+  (cd /verif && VERIF_REPO="$S" VERIF_OUT="$S/out" ./check "$prop" --tier "$T" > "$S/log" 2>&1); rc=$?
+  echo "$id: check exit=$rc $(grep -c VIOLATION "$S/log") violation line(s)"
+  rm -rf "$S"
+}
+export -f one
+ls -d /verif/seeded/*/ | xargs -P "$J" -I{} bash -c 'one {} '"$T" | sort
